@@ -3,9 +3,9 @@ from runner import Ob
 from props.common import run_with
 
 NEEDS_LEXER = False
-FUNCS = ["cfg_addval", "cfg_addopt", "cfg_dupopt_array", "cfg_free_opt_array", "cfg_setopt (CFGT_STR, CFGT_SEC)", "cfg_opt_setnstr", "cfg_opt_setcomment", "cfg_opt_setmulti",
+FUNCS = ["cfg_parse_buf", "cfg_parse_fp", "call_function", "cfg_searchpath", "cfg_make_fullpath", "cfg_getopt_secidx", "cfg_opt_setnint", "cfg_addval", "cfg_addopt", "cfg_dupopt_array", "cfg_free_opt_array", "cfg_setopt (CFGT_STR, CFGT_SEC)", "cfg_opt_setnstr", "cfg_opt_setcomment", "cfg_opt_setmulti",
          "cfg_addtsec", "cfg_add_searchpath", "cfg_tilde_expand", "cfg_init", "cfg_init_defaults"]
-MODES = dict(ADDVAL=1, ADDOPT=2, DUPOPT=3, SETOPT_STR=4, SETOPT_SEC=5, SETNSTR=6, SETCOMMENT=7, SETMULTI=8, ADD_SEARCHPATH=9, TILDE=10, INIT=11, ADDTSEC=12)
+MODES = dict(PARSEBUF=14, CALLFUNC=15, SEARCHPATH=16, GETOPT_PATH=17, SETNINT_LIST=18, ADDVAL=1, ADDOPT=2, DUPOPT=3, SETOPT_STR=4, SETOPT_SEC=5, SETNSTR=6, SETCOMMENT=7, SETMULTI=8, ADD_SEARCHPATH=9, TILDE=10, INIT=11, ADDTSEC=12)
 
 
 def alloc_obs(tag, modes=None, excl=False):
@@ -26,6 +26,12 @@ def alloc_obs(tag, modes=None, excl=False):
     add("SETCOMMENT")
     add("ADD_SEARCHPATH")
     add("TILDE")
+    add("PARSEBUF")
+    add("CALLFUNC")
+    add("SEARCHPATH")
+    add("GETOPT_PATH")
+    for nv in (0, 2):
+        add("SETNINT_LIST", nv)
     # compound calls: one obligation per failing allocation k (k = -1: none fails)
     for k in range(-1, 16):
         add("SETOPT_SEC", 1, extra=("FAIL_AT=%d" % k,))
